@@ -284,6 +284,13 @@ func (in *c04Inst) Step(ev int) *vh.HViol {
 				if h.res.Status >= 500 {
 					in.mon[i].consec++
 					in.mon[i].cum++
+					// a request that was on its way when its backend was ejected may complete the
+					// threshold while the backend is out: the backend is ejected anew from this
+					// moment and the count starts afresh (the flag was down already, so no new
+					// ejection "becomes visible" for observe to notice)
+					if m, now := in.mon[i], in.s.Clock(); in.p.Thr > 0 && m.cum >= in.p.Thr && m.until >= 0 && now <= m.until {
+						m.until, m.consec, m.cum = now+c04Window, 0, 0
+					}
 				} else {
 					in.mon[i].consec = 0
 				}
